@@ -175,6 +175,9 @@ def check(ctx):
 
 def protocol(ctx, res, F, tag):
     """E2: every child-side abort is preceded by a write of -r to the error pipe"""
+    late = sorted({(e[4].mon.get("failed"), site_of(e[1], e[2])) for e in res.events if e[0] == "exec" and e[4].mon.get("failed")})
+    ctx.ob("C04.E1x", "execvp [%s]" % tag, "the program is never exec'ed after a call that the launch depends on (chdir, dup2, fcntl, ...) "
+           "has failed in the child", not late, {"failed_call_then_exec": late[:4]}, nontrivial=True)
     seen = set()
     for st, n, fn in res.aborts:
         if st.mon.get("proc") != "child":
